@@ -61,6 +61,9 @@ type scen struct {
 	dabt   int    // DA block time ms (0 = the block time); the submitters' retry back-off is derived from it
 	ttl    int    // DA mempool TTL in DA blocks (0 = 1): a rejected submission is retried after dabt*ttl
 	gas    bool   // non-default gas configuration (price 1, multiplier 2): rejected submissions escalate the price
+	maxp   int    // cfg.Node.MaxPendingHeadersAndData (0 = 100000: never reached)
+	outms  int    // daf=outage: every submission fails during the first outms milliseconds of the node's life, then the DA accepts
+	notx   bool   // idle chain: the execution double is fed no transactions
 	xagg   int    // agg: the execution layer's GetTxs takes N ms WHATEVER the context says (a remote component that winds a cancelled call down slowly)
 }
 
@@ -87,6 +90,15 @@ func (s scen) line() string {
 	}
 	if s.xagg > 0 {
 		x += fmt.Sprintf(" xagg=%d", s.xagg)
+	}
+	if s.maxp > 0 {
+		x += fmt.Sprintf(" maxp=%d", s.maxp)
+	}
+	if s.outms > 0 {
+		x += fmt.Sprintf(" outms=%d", s.outms)
+	}
+	if s.notx {
+		x += " notx=1"
 	}
 	return fmt.Sprintf("run mode=%s future=%d slow=%d lazy=%d bt=%d span=%d prod=%d%s", s.mode, s.future, s.slow, l, s.bt, s.span, s.prod, x)
 }
@@ -122,6 +134,9 @@ func Gen(r *hx.Rng, tier string, w io.Writer) {
 		// the DA layer answers one submission in three with "context canceled" (a proxy that timed out) while the node is
 		// NOT stopping: the submission loops must live on (alive-at-stop and progress monitors)
 		scen{mode: "agg", bt: 50, span: 900, daf: "canceled", dabt: 25},
+		// an IDLE chain in lazy mode (lazy interval 160 ms), pending limit 2, the DA layer is down for the first 500 ms: the
+		// limit is reached while lazy ticks fire; once the DA layer accepts the backlog, production must resume
+		scen{mode: "agg", bt: 40, span: 2000, lazy: true, dabt: 20, daf: "outage", outms: 500, maxp: 2, notx: true},
 	)
 	n := 2
 	if tier == "thorough" {
@@ -153,6 +168,13 @@ func Gen(r *hx.Rng, tier string, w io.Writer) {
 	}
 	if tier == "thorough" {
 		ss = append(ss, scen{mode: "agg", bt: 60, span: 500, future: 5000, lazy: true})
+		// DA outage + pending limit, then recovery: normal mode, lazy mode with traffic, other limits / intervals
+		ss = append(ss,
+			scen{mode: "agg", bt: 40, span: 2000, dabt: 20, daf: "outage", outms: 500, maxp: 2, notx: true},
+			scen{mode: "agg", bt: 50, span: 2200, lazy: true, dabt: 25, daf: "outage", outms: 700, maxp: 1, notx: true},
+			scen{mode: "agg", bt: 30, span: 2000, lazy: true, dabt: 30, daf: "outage", outms: 400, maxp: 3},
+			scen{mode: "agg", bt: 40, span: 2100, dabt: 40, daf: "outage", outms: 600, maxp: 5},
+		)
 	}
 	// generated deliberately and last: a full node whose execution layer aborts its calls with ctx.Err() when the node
 	// is stopped - SyncLoop and DAIncluderLoop both report the error on the capacity-1 errCh after Run stopped reading
@@ -291,9 +313,10 @@ func (d *slowDA) GetIDs(ctx context.Context, h uint64, ns []byte) (*coreda.GetID
 // faultDA makes submissions fail by a pattern (its own state under a mutex); everything else goes to the double.
 type faultDA struct {
 	coreda.DA
-	mu   sync.Mutex
-	kind string
-	n    int
+	mu    sync.Mutex
+	kind  string
+	n     int
+	until time.Time // outage: every submission fails until then
 }
 
 func (d *faultDA) fault() error {
@@ -309,6 +332,10 @@ func (d *faultDA) fault() error {
 		}
 	case "error":
 		if d.n%3 != 0 {
+			return fmt.Errorf("da: connection refused")
+		}
+	case "outage":
+		if time.Now().Before(d.until) {
 			return fmt.Errorf("da: connection refused")
 		}
 	case "canceled":
@@ -344,6 +371,7 @@ type nodeEnv struct {
 	cancel   context.CancelFunc
 	done     chan error
 	baseline map[string]bool
+	recovery time.Time // daf=outage: when the DA layer starts to accept
 }
 
 func newNode(s scen, aggregator bool, da *hx.DA, genesisTime time.Time) (*nodeEnv, error) {
@@ -369,6 +397,9 @@ func newNode(s scen, aggregator bool, da *hx.DA, genesisTime time.Time) (*nodeEn
 	cfg.Node.LazyMode = s.lazy && aggregator
 	cfg.Node.LazyBlockInterval.Duration = time.Duration(4*s.bt) * time.Millisecond
 	cfg.Node.MaxPendingHeadersAndData = 100000
+	if s.maxp > 0 {
+		cfg.Node.MaxPendingHeadersAndData = uint64(s.maxp)
+	}
 	cfg.DA.BlockTime.Duration = time.Duration(s.bt) * time.Millisecond
 	if s.dabt > 0 {
 		cfg.DA.BlockTime.Duration = time.Duration(s.dabt) * time.Millisecond
@@ -403,7 +434,8 @@ func newNode(s scen, aggregator bool, da *hx.DA, genesisTime time.Time) (*nodeEn
 		dal = &slowDA{DA: da, delay: time.Duration(s.slow) * time.Millisecond}
 	}
 	if s.daf != "" && aggregator {
-		dal = &faultDA{DA: dal, kind: s.daf}
+		dal = &faultDA{DA: dal, kind: s.daf, until: time.Now().Add(time.Duration(s.outms) * time.Millisecond)}
+		e.recovery = time.Now().Add(time.Duration(s.outms) * time.Millisecond)
 	}
 	n, err := node.NewNode(context.Background(), cfg, e.exec, &seqD{}, dal, sg, p2pc, e.gen, e.ds,
 		node.DefaultMetricsProvider(&ins), logging.Logger("verif-node"), node.NodeOptions{})
@@ -907,7 +939,7 @@ func runNode(c *hx.Ctx, s scen, who string, aggregator bool, da *hx.DA, span tim
 	}
 	defer e.cleanup()
 	ictx, icancel := context.WithCancel(context.Background())
-	if aggregator {
+	if aggregator && !s.notx {
 		go injector(ictx, e.exec, who, time.Duration(s.bt)*time.Millisecond/2+time.Millisecond)
 	}
 	e.start()
@@ -956,6 +988,35 @@ func runNode(c *hx.Ctx, s scen, who string, aggregator bool, da *hx.DA, span tim
 		if _, ok := res.atStop[l]; !ok {
 			out.inv = false
 			c.Report("C13/world/loop-exited-while-running/"+l, fmt.Sprintf("%s: %s was no longer running at the stop request (Run had not returned, no error reported); alive: %v", who, l, keys(res.atStop)))
+		}
+	}
+	// production resumes after a DA outage that made the pending limit bite: once the DA layer accepts again, the backlog is
+	// submitted and blocks must be produced again - at the lazy interval on an idle chain in lazy mode, at the block time
+	// otherwise (generous: 3 blocks when at least 1.4 s and 8 intervals have passed since the recovery)
+	if aggregator && s.daf == "outage" && s.maxp > 0 && len(ch) > 0 {
+		interval := time.Duration(s.bt) * time.Millisecond
+		kind := "normal"
+		if s.lazy {
+			kind = "lazy"
+			if s.notx {
+				interval = 4 * interval
+			}
+		}
+		since := res.stopAt.Sub(e.recovery)
+		after := 0
+		for _, b := range ch {
+			if b.time.After(e.recovery) {
+				after++
+			}
+		}
+		lh, ld := m.VerifLastSubmitted()
+		if os.Getenv("C13_DEBUG") != "" {
+			fmt.Fprintf(os.Stderr, "[c13] %s outage: since recovery %v height %d blocks after recovery %d lh=%d ld=%d limit %d\n", who, since, len(ch), after, lh, ld, s.maxp)
+		}
+		c.Hit(fmt.Sprintf("outage/blocks-before-recovery/%d", min(len(ch)-after, 9)))
+		if since >= 1400*time.Millisecond && since >= 8*interval && after < 3 {
+			out.inv = false
+			c.Report("C13/world/production-stopped-after-da-recovery/"+kind, fmt.Sprintf("%s: the DA layer accepts again since %v (interval %v, pending limit %d): chain height %d, only %d blocks produced since; last submitted header %d data %d", who, since, interval, s.maxp, len(ch), after, lh, ld))
 		}
 	}
 	// nothing survives the shutdown
@@ -1058,11 +1119,12 @@ func runScenario(c *hx.Ctx, s scen) outcome {
 
 func parseScen(o hx.Op) (scen, bool) {
 	s := scen{mode: o.Str("mode"), future: o.Int("future"), slow: o.Int("slow"), lazy: o.Bool("lazy"), bt: o.Int("bt"), span: o.Int("span"), prod: o.Int("prod"), xexec: o.Int("xexec"),
-		daf: o.Str("daf"), dabt: o.Int("dabt"), ttl: o.Int("ttl"), gas: o.Bool("gas"), xagg: o.Int("xagg")}
+		daf: o.Str("daf"), dabt: o.Int("dabt"), ttl: o.Int("ttl"), gas: o.Bool("gas"), xagg: o.Int("xagg"),
+		maxp: o.Int("maxp"), outms: o.Int("outms"), notx: o.Bool("notx")}
 	if s.mode != "agg" && s.mode != "full" {
 		return s, false
 	}
-	if (s.daf != "" && s.daf != "reject" && s.daf != "flaky" && s.daf != "error" && s.daf != "canceled") || s.dabt > 60000 || s.ttl > 1000 || (s.daf != "" && s.mode != "agg") {
+	if (s.daf != "" && s.daf != "reject" && s.daf != "flaky" && s.daf != "error" && s.daf != "canceled" && s.daf != "outage") || s.dabt > 60000 || s.ttl > 1000 || (s.daf != "" && s.mode != "agg") {
 		return s, false
 	}
 	if s.bt < 10 || s.bt > 2000 || s.span < 50 || s.span > 20000 || s.future > 60000 || s.slow > 5000 {
@@ -1075,6 +1137,9 @@ func parseScen(o hx.Op) (scen, bool) {
 		return s, false
 	}
 	if s.xagg > 1500 || (s.xagg > 0 && s.mode != "agg") {
+		return s, false
+	}
+	if s.maxp > 100000 || s.outms > 20000 || (s.outms > 0) != (s.daf == "outage") {
 		return s, false
 	}
 	return s, true
